@@ -228,9 +228,10 @@ def rand_values(rng, shape, dtype="float", mag=None):
 
 VDIM_POOLS = {
     1: [None],
-    2: [None, ["a", "b"], ["mx", "my"], ["v_1", "v_2"]],
-    3: [None, ["a", "b", "c"], ["mx", "my", "mz"], ["v_1", "v_2", "v_3"], ["z", "x", "y"]],
-    4: [None, ["a", "b", "c", "d"], ["m_x", "m_y", "m_z", "m_t"]],
+    2: [None, ["a", "b"], ["mx", "my"], ["v_1", "v_2"], ["q", "p"]],
+    3: [None, ["a", "b", "c"], ["mx", "my", "mz"], ["v_1", "v_2", "v_3"], ["z", "x", "y"],
+        ["c", "a", "b"]],
+    4: [None, ["a", "b", "c", "d"], ["m_x", "m_y", "m_z", "m_t"], ["w", "u", "t", "v"]],
 }
 
 
